@@ -193,11 +193,14 @@ def run_shard(shard):
     stats = explorer.Stats()
     sites, trees = set(), set()
     maxpoints = [0]
+    example = []          # the switches of one schedule with a preemption
 
     def process(ctx, result):
         observed, bad, sched = result
         used = sum(p.costs[p.chosen] for p in ctx.points)
         res.case(nontrivial=used > 0)
+        if used > 0 and not example:
+            example.extend([list(t) for t in sched.trace])
         res.count("transitions")
         res.count("thread_schedules")
         maxpoints[0] = max(maxpoints[0], sched.points)
@@ -253,7 +256,8 @@ def run_shard(shard):
         res.sample(dict(part="threads", operation=list(op), worker_type=wtype,
                         root=root,
                         preemption_bound=bound,
-                        scheduling_points_per_execution=maxpoints[0]))
+                        scheduling_points_per_execution=maxpoints[0],
+                        switches_of_one_preempting_schedule=example))
     return res
 
 
